@@ -22,6 +22,20 @@ func main() {
 		cmdVerify(os.Args[2:])
 	case "check":
 		cmdCheck(os.Args[2:])
+	case "conj":
+		e, err := LoadEngine(envOr("GOVC_REPO", "/repo"), envOr("GOVC_VERIF", "/verif"))
+		if err != nil {
+			fmt.Fprintln(os.Stderr, err)
+			os.Exit(2)
+		}
+		x, err := ParseExpr(os.Args[2])
+		if err != nil {
+			fmt.Fprintln(os.Stderr, err)
+			os.Exit(2)
+		}
+		for i, c := range splitConj(x, e.db, 0) {
+			fmt.Printf("/%d  %s\n", i+1, c.String())
+		}
 	case "replay":
 		cmdReplay(os.Args[2:])
 	case "ssa":
